@@ -253,6 +253,105 @@ def twin_case(acc, case):
     acc.sigs.add(harness.sig_hash("twin/%d" % case["park"]))
 
 
+def backlog_race_case(acc, case):
+    """The state-machine thread is parked at the k-th line of its handling of a base request while an application thread
+    hands over more than one 256 KiB batch of messages: the answer is then queued behind (or among) them and leaves the node
+    one or more ticks later.  It must still carry the request's identifiers, and be the only answer."""
+    from bromelia.base import DiameterMessage
+    rng = random.Random(case["seed"])
+    role = case["role"]
+    sc = N.Scenario(seed=case["seed"], strategy="rw", p=0.02, role=role, apps=[16777251], lines=True, max_steps=900_000, wall_s=90)
+    wit = {"case": case}
+    with sc:
+        try:
+            big = DiameterMessage.load(R.encode(N.app_request(778, size=70000, host=N.LOCAL[0], realm=N.LOCAL[1], dest_realm=N.PEER[1])))[0]
+            requests = []
+            if case["kind"] == "pre-ce":
+                # server role: the application queues its backlog as soon as the transport is up, before the peer's CER is handled
+                sc.start_node()
+                if not sc.connect_transport():
+                    acc.inconclusive.append("transport set-up failed (%r)" % (case,))
+                    return
+                sc.sched.run_until(lambda: getattr(getattr(sc.node._association, "transport", None), "is_connected", False), 1.0, "transport-up")
+                try:
+                    sc.node.send_messages([big] * case["backlog"])
+                    acc.counters["backlog_before_capabilities_exchange"] += 1
+                except BaseException as ex:
+                    if isinstance(ex, vsched.ControlException):
+                        raise
+                    acc.observe("send_messages-before-open-raises:%s" % type(ex).__name__)
+                h, e = rng.randrange(1, 2 ** 32), rng.randrange(1, 2 ** 32)
+                sc.inject(R.encode(N.cer(hbh=h, e2e=e, apps=sc.apps)))
+                requests.append(("CEA", h, e))
+                sc.sched.run_until(lambda: sc.node.is_open(), 20, "open")
+            else:
+                if not sc.open():
+                    acc.inconclusive.append("node did not open (%r)" % (case,))
+                    return
+                sc.read_emitted()
+                sc.emitted_msgs = []
+                psm = [t for t in sc.sched.tasks if t.name.endswith("_psm_thread")][0]
+                done = []
+
+                def submitter():
+                    sc.sched.block_until(lambda: bool(sc.sched.parked_at), 1.0, "late-submitter")
+                    sc.node.send_messages([big] * case["backlog"])
+                    done.append(1)
+                funcs = {"event_open_rcv_dwr", "event_open_rcv_cer", "create_answer", "send_message", "put_message_into_send_queue", "is_valid_device_watchdog",
+                         "is_valid_capability_exchange", "process_request"}
+                sc.sched.parks.append({"task": psm, "nth": case["park"], "funcs": funcs, "timeout": 1.0, "release": lambda: bool(done)})
+                sc.sched.spawn("submitter", submitter)
+                h, e = rng.randrange(1, 2 ** 32), rng.randrange(1, 2 ** 32)
+                if case["kind"] == "dwr":
+                    sc.inject(R.encode(N.dwr(hbh=h, e2e=e)))
+                    requests.append(("DWA", h, e))
+                else:
+                    sc.inject(R.encode(N.cer(hbh=h, e2e=e, apps=sc.apps)))
+                    requests.append(("CEA", h, e))
+                sc.sched.run_until(lambda: bool(done), 3.0, "backlog-submitted")
+            # a second request behind the first, then everything drains
+            h2, e2 = rng.randrange(1, 2 ** 32), rng.randrange(1, 2 ** 32)
+            sc.inject(R.encode(N.dwr(hbh=h2, e2e=e2)))
+            requests.append(("DWA", h2, e2))
+            want_app = case["backlog"]
+            seen = []
+
+            def drained():
+                seen.extend(sc.read_emitted())
+                return len([m for m in seen if N.name_of(m) in ("CEA", "DWA")]) >= len(requests) and len([m for m in seen if N.marker_of(m) == 778]) >= want_app
+            sc.sched.run_until(drained, 6.0, "drain")
+            sc.sched.run_until(lambda: False, 0.02, "grace")
+            drained()
+            acc.counters["backlog_race_executions"] += 1
+            if sc.sched.parked_at:
+                acc.counters["backlog_race_parked"] += 1
+            got = [(N.name_of(m), m.hbh, m.e2e) for m in seen if N.name_of(m) in ("CEA", "DWA", "DPA")]
+            wit.update({"requests": requests, "answers": got, "app_written": len([m for m in seen if N.marker_of(m) == 778]), "parked_at": sc.sched.parked_at[:1], "deaths": sc.sched.deaths})
+            if sc.sched.deaths:
+                d = sc.sched.deaths[0]
+                acc.violation("task-died:%s:%s" % (d["task"], d["type"]), "%s died: %s" % (d["task"], d["traceback"][-300:]), wit)
+            elif got != requests:
+                if len(got) < len(requests) and all(g in requests for g in got):
+                    key = "base-request-not-answered"
+                elif len(got) > len(requests):
+                    key = "base-answer-without-request-or-duplicate"
+                elif [g[0] for g in got] == [r[0] for r in requests]:
+                    key = "base-answer-carries-wrong-identifiers"
+                else:
+                    key = "base-answers-out-of-order"
+                acc.violation(key, "send queue backed up past one batch while the request was handled: answers %s for requests %s" % (got, requests), wit)
+            else:
+                acc.counters["answers_seen"] += len(got)
+        except vsched.DeadlockError as ex:
+            acc.violation("deadlock", "deadlock: %s" % ex, dict(wit, stacks=sc.sched.stacks()))
+        except vsched.WallClock as ex:
+            acc.inconclusive.append("%s (case %r)" % (ex, case))
+        except vsched.StepBudget as ex:
+            acc.violation("spin", "%s; %s" % (ex, sc.sched.blocked_report()), wit)
+    acc.evaluations += 1
+    acc.sigs.add(harness.sig_hash("backlog-race/%s/%s/%s" % (case["kind"], case["role"], case.get("park"))))
+
+
 def run_batch(b):
     acc = harness.Acc()
     if b.get("real"):
@@ -260,7 +359,9 @@ def run_batch(b):
         realnet.run_cases(acc, b["real"])
         return acc
     for case in b["cases"]:
-        if case.get("twin"):
+        if case.get("race"):
+            backlog_race_case(acc, case)
+        elif case.get("twin"):
             twin_case(acc, case)
         else:
             execute(acc, case)
@@ -281,6 +382,11 @@ def main(tier, seed):
                       "strategy": rng.choice(["rr", "rw"]), "p": 0.05, "rounds": 1, "flood": 0, "backlog": rng.choice([12, 24])})
     for k in range(0, 70, 2 if q else 1):
         cases.append({"twin": True, "seed": seed * 331 + k, "park": k})
+    for k in range(0, 40, 2 if q else 1):
+        for kind in ("dwr", "cer"):
+            cases.append({"race": True, "kind": kind, "role": ("client", "server")[k % 2] if q else rng.choice(["client", "server"]), "park": k, "backlog": rng.choice([5, 9]), "seed": seed * 577 + k})
+    for i in range(4 if q else 40):
+        cases.append({"race": True, "kind": "pre-ce", "role": "server", "backlog": rng.choice([3, 5, 9]), "seed": seed * 587 + i})
     nb = 16 if q else 64
     batches = [{"cases": cases[i::nb]} for i in range(nb)]
     # real loopback (bvm/realnet.py): bursts of DWR/CER/DPR with boundary identifiers, two connections of the same object
@@ -294,12 +400,13 @@ def main(tier, seed):
                           ["the peer is scripted by the driver task; answers are read from the bytes the node wrote to the substituted socket",
                            "identifier pairs are sampled (boundary + random), not enumerated over 2^64",
                            "emission order is decided on scheduler steps: the send() that carried the answer's last byte vs the step at which the state machine took the next inbound message"],
-                          t0, require_counters=("answers_seen", "connections", "reconnects", "ordering_checked", "backlog_cases", "real_loopback_ok", "stray_base_answers_injected", "twin_node_executions", "twin_node_parked"))
+                          t0, require_counters=("answers_seen", "connections", "reconnects", "ordering_checked", "backlog_cases", "real_loopback_ok", "stray_base_answers_injected", "twin_node_executions", "twin_node_parked", "backlog_race_executions", "backlog_race_parked"))
 
 
 def replay(w):
     acc = harness.Acc()
-    execute(acc, w["witness"]["case"])
+    c = w["witness"]["case"]
+    (backlog_race_case if c.get("race") else twin_case if c.get("twin") else execute)(acc, c)
     for v in acc.violations:
         print("VIOLATION property=C07 replay=<this>", v["key"], v["what"][:400])
     return 1 if acc.violations else 0
